@@ -497,105 +497,130 @@ class Context:
         math_obj.set("SQRT1_2", math.sqrt(0.5))
 
         # Basic functions
+        def number_arg(args, index=0):
+            return to_number(args[index]) if len(args) > index else float("nan")
+
+        def is_special(x):
+            return isinstance(x, float) and (math.isnan(x) or math.isinf(x))
+
+        def integral(x, rounded):
+            """Result of a rounding function: doubles from 2**53 up are integers
+            already; a zero result keeps the sign of the argument."""
+            if abs(x) >= 2**53:
+                return x
+            if rounded == 0 and (x < 0 or math.copysign(1, x) < 0):
+                return -0.0
+            return rounded
+
+        def libm(fn, *xs):
+            """Call a libm function: domain errors are NaN, overflow is an infinity."""
+            try:
+                return fn(*xs)
+            except ValueError:
+                return float("nan")
+            except OverflowError:
+                return float("inf")
+
         def abs_fn(*args):
-            x = to_number(args[0]) if args else float("nan")
-            return abs(x)
+            return abs(number_arg(args))
 
         def floor_fn(*args):
-            x = to_number(args[0]) if args else float("nan")
-            return math.floor(x)
+            x = number_arg(args)
+            return x if is_special(x) else integral(x, math.floor(x))
 
         def ceil_fn(*args):
-            x = to_number(args[0]) if args else float("nan")
-            return math.ceil(x)
+            x = number_arg(args)
+            return x if is_special(x) else integral(x, math.ceil(x))
 
         def round_fn(*args):
-            x = to_number(args[0]) if args else float("nan")
-            # JavaScript-style round (round half towards positive infinity)
-            return math.floor(x + 0.5)
+            x = number_arg(args)
+            if is_special(x) or abs(x) >= 2**52:
+                return x
+            # Round half towards positive infinity, without the x + 0.5 rounding error
+            lower = math.floor(x)
+            return integral(x, lower + 1 if x - lower >= 0.5 else lower)
 
         def trunc_fn(*args):
-            x = to_number(args[0]) if args else float("nan")
-            return math.trunc(x)
+            x = number_arg(args)
+            return x if is_special(x) else integral(x, math.trunc(x))
+
+        def extreme(args, pick_first):
+            result = None
+            for value in [to_number(a) for a in args]:
+                if isinstance(value, float) and math.isnan(value):
+                    return float("nan")
+                if result is None or pick_first(value, result):
+                    result = value
+            return result
 
         def min_fn(*args):
             if not args:
                 return float("inf")
-            nums = [to_number(a) for a in args]
-            return min(nums)
+            # -0 is smaller than +0
+            return extreme(
+                args,
+                lambda v, r: v < r or (v == 0 and r == 0 and math.copysign(1, v) < 0),
+            )
 
         def max_fn(*args):
             if not args:
                 return float("-inf")
-            nums = [to_number(a) for a in args]
-            return max(nums)
+            return extreme(
+                args,
+                lambda v, r: v > r or (v == 0 and r == 0 and math.copysign(1, r) < 0),
+            )
 
         def pow_fn(*args):
-            x = to_number(args[0]) if args else float("nan")
-            y = to_number(args[1]) if len(args) > 1 else float("nan")
-            return math.pow(x, y)
+            from .vm import js_pow
+
+            return js_pow(number_arg(args), number_arg(args, 1))
 
         def sqrt_fn(*args):
-            x = to_number(args[0]) if args else float("nan")
+            x = number_arg(args)
             if x < 0:
                 return float("nan")
             return math.sqrt(x)
 
         def sin_fn(*args):
-            x = to_number(args[0]) if args else float("nan")
-            return math.sin(x)
+            return libm(math.sin, number_arg(args))
 
         def cos_fn(*args):
-            x = to_number(args[0]) if args else float("nan")
-            return math.cos(x)
+            return libm(math.cos, number_arg(args))
 
         def tan_fn(*args):
-            x = to_number(args[0]) if args else float("nan")
-            return math.tan(x)
+            return libm(math.tan, number_arg(args))
 
         def asin_fn(*args):
-            x = to_number(args[0]) if args else float("nan")
-            if x < -1 or x > 1:
-                return float("nan")
-            return math.asin(x)
+            return libm(math.asin, number_arg(args))
 
         def acos_fn(*args):
-            x = to_number(args[0]) if args else float("nan")
-            if x < -1 or x > 1:
-                return float("nan")
-            return math.acos(x)
+            return libm(math.acos, number_arg(args))
 
         def atan_fn(*args):
-            x = to_number(args[0]) if args else float("nan")
-            return math.atan(x)
+            return math.atan(number_arg(args))
 
         def atan2_fn(*args):
-            y = to_number(args[0]) if args else float("nan")
-            x = to_number(args[1]) if len(args) > 1 else float("nan")
-            return math.atan2(y, x)
+            return math.atan2(number_arg(args), number_arg(args, 1))
+
+        def log_of(fn, x):
+            if x == 0:
+                return float("-inf")
+            return libm(fn, x)
 
         def log_fn(*args):
-            x = to_number(args[0]) if args else float("nan")
-            if x <= 0:
-                return float("-inf") if x == 0 else float("nan")
-            return math.log(x)
+            return log_of(math.log, number_arg(args))
 
         def exp_fn(*args):
-            x = to_number(args[0]) if args else float("nan")
-            return math.exp(x)
+            return libm(math.exp, number_arg(args))
 
         def random_fn(*args):
             return random.random()
 
         def sign_fn(*args):
-            x = to_number(args[0]) if args else float("nan")
-            if math.isnan(x):
-                return float("nan")
-            if x > 0:
-                return 1
-            if x < 0:
-                return -1
-            return 0
+            x = number_arg(args)
+            if math.isnan(x) or x == 0:
+                return x  # NaN, +0 and -0 are returned unchanged
+            return 1 if x > 0 else -1
 
         def imul_fn(*args):
             # 32-bit integer multiplication
@@ -617,10 +642,11 @@ class Context:
             # Convert to 32-bit float
             import struct
 
-            x = to_number(args[0]) if args else float("nan")
-            # Pack as 32-bit float and unpack as 64-bit
-            packed = struct.pack("f", x)
-            return struct.unpack("f", packed)[0]
+            x = number_arg(args)
+            try:
+                return struct.unpack("f", struct.pack("f", x))[0]
+            except OverflowError:
+                return float("-inf") if x < 0 else float("inf")
 
         def clz32_fn(*args):
             # Count leading zeros in 32-bit integer
@@ -641,26 +667,27 @@ class Context:
             return math.hypot(*nums)
 
         def cbrt_fn(*args):
-            x = to_number(args[0]) if args else float("nan")
+            x = number_arg(args)
+            if x == 0 or is_special(x):
+                return x
             if x < 0:
                 return -((-x) ** (1 / 3))
             return x ** (1 / 3)
 
         def log2_fn(*args):
-            x = to_number(args[0]) if args else float("nan")
-            return math.log2(x) if x > 0 else float("nan")
+            return log_of(math.log2, number_arg(args))
 
         def log10_fn(*args):
-            x = to_number(args[0]) if args else float("nan")
-            return math.log10(x) if x > 0 else float("nan")
+            return log_of(math.log10, number_arg(args))
 
         def expm1_fn(*args):
-            x = to_number(args[0]) if args else float("nan")
-            return math.expm1(x)
+            return libm(math.expm1, number_arg(args))
 
         def log1p_fn(*args):
-            x = to_number(args[0]) if args else float("nan")
-            return math.log1p(x) if x > -1 else float("nan")
+            x = number_arg(args)
+            if x == -1:
+                return float("-inf")
+            return libm(math.log1p, x)
 
         # Set all methods
         math_obj.set("abs", abs_fn)
